@@ -238,6 +238,15 @@ def find_resource(rep, idx):
                        (('call', ('attr', w, 'find_resource'), (('name', 'resource'),), ()), w, wn, wr), ()))
         rep.check(v == want, "C03.1", site, "a resource found behind a window is translated with that window, its name and its stored range",
                   f"returns {ir.show(v)[:160]}")
+    # a miss in one window moves on to the next one
+    handlers = [h for n in ast.walk(c.fi.node) if isinstance(n, ast.Try) for h in n.handlers]
+    moves_on = bool(handlers) and all(all(isinstance(s, (ast.Pass, ast.Continue)) for s in h.body) for h in handlers)
+    rep.check(moves_on, "C03.4", site, "a miss in one window moves on to the next window",
+              f"handler bodies: {[ast.unparse(s) for h in handlers for s in h.body]}: the search must not stop at the first window that does "
+              "not hold the resource")
+    for ln, why in c.t.unsupported:
+        if "Break" in why or "While" in why:
+            rep.unk("C03.4", site, "control flow of the window search", why)
     # only KeyError is swallowed; the search ends with KeyError
     types = [t for tys, g_, l_ in c.t.trys for t in tys]
     rep.check(types == ["KeyError"], "C03.4", site, "only KeyError (not found in that window) is swallowed", f"handlers catch {types}")
